@@ -643,3 +643,57 @@ Definition exec_kwargs (s : schema) (defs : list ifield) (vds : list var_def)
   | Rejected k p => Rejected k p
   | Crash c => Crash c
   end.
+
+(* ------------------------------------------------------ directive arguments *)
+(* utilities/coerce_value.py directive_arguments: find_one(node.directives,
+   name == definition.name), then coerce_argument_values on that directive
+   node; None when the directive is not on the node. *)
+Fixpoint find_directive (dname : str) (ds : list directive) : option directive :=
+  match ds with
+  | [] => None
+  | d :: ds' => if str_eqb (n_val (d_name d)) dname then Some d else find_directive dname ds'
+  end.
+
+Definition directive_arguments (s : schema) (defs : list ifield) (dname : str)
+           (ds : list directive) (vs : vars) : outcome (option (list (str * pv))) :=
+  match find_directive dname ds with
+  | None => Ok None
+  | Some d =>
+      match coerce_argument_values s defs (d_args d) vs with
+      | Ok kw => Ok (Some kw)
+      | OutOfFuel => OutOfFuel
+      | Rejected k p => Rejected k p
+      | Crash c => Crash c
+      end
+  end.
+
+(* schema/directives.py: @skip(if: Boolean!) and @include(if: Boolean!) *)
+Definition str_if : str := str_of_string "if"%string.
+Definition if_arg : ifield :=
+  IField str_if str_if (INamed true (str_of_string "Boolean"%string)) None.
+
+(* skip["if"] / include["if"] *)
+Definition if_value (kw : list (str * pv)) : outcome bool :=
+  match alookup str_if kw with Some v => Ok (truthy v) | None => Crash 3 end.
+
+(* utilities/collect_fields.py _skip_selection, through the general argument
+   coercion: both directives are coerced first, then combined *)
+Definition skip_selection_args (s : schema) (ds : list directive) (vs : vars) : outcome bool :=
+  match directive_arguments s [if_arg] (str_of_string "skip"%string) ds vs with
+  | Ok sk =>
+      match directive_arguments s [if_arg] (str_of_string "include"%string) ds vs with
+      | Ok inc =>
+          match (match sk with Some kw => if_value kw | None => Ok false end),
+                (match inc with Some kw => if_value kw | None => Ok true end) with
+          | Ok skipped, Ok included => Ok (skipped || negb included)
+          | Ok _, o => o
+          | o, _ => o
+          end
+      | OutOfFuel => OutOfFuel
+      | Rejected k p => Rejected k p
+      | Crash c => Crash c
+      end
+  | OutOfFuel => OutOfFuel
+  | Rejected k p => Rejected k p
+  | Crash c => Crash c
+  end.
